@@ -1,6 +1,6 @@
 //! io_uring back end, send side (C06 / C18): the real `SendBuffers` (send_buffers.rs) driven without a
 //! ring through the hook `aquatic_udp::workers::socket::verif_uring`.
-//!   new <cap>
+//!   cfg <cap>
 //!   prep <fits 0|1> <ipv4-socket 0|1>  => ok <index> | nobuf | serfail | PANIC ..
 //!   free <index>                        => ok | PANIC ..
 //!   reset                               => ok
@@ -37,9 +37,9 @@ struct Ex { sb: Option<SendBuffers>, n: usize }
 impl Ex {
     fn line(&mut self, out: &mut impl Write, t: &[&str]) {
         match t {
-            ["new", cap] => {
+            ["cfg", cap] => {
                 self.sb = Some(SendBuffers::new(cap.parse().unwrap_or(1)));
-                writeln!(out, "new {}", cap).unwrap();
+                writeln!(out, "cfg {}", cap).unwrap();
             }
             ["prep", fits, v4s] => {
                 self.n += 1;
@@ -91,7 +91,7 @@ pub fn run(out: &mut impl Write, seed: u64, cases: usize, replay: &str) {
     for case in 0..cases {
         let mut r = master.fork(case as u64);
         let cap = r.pick(&[1usize, 2, 3, 4, 8]);
-        ex.line(out, &["new", &cap.to_string()]);
+        ex.line(out, &["cfg", &cap.to_string()]);
         let mut inflight: Vec<usize> = Vec::new();
         let nops = 20 + r.below(50);
         for _ in 0..nops {
